@@ -127,6 +127,34 @@ def run(rep, tier, rng, replay=None):
             n_corr += 1
             rep.violation("correspondence-c06", "model/implementation differ on %s (%s): impl=%s model=%s" % (c[:60], what, a[i], m[i]),
                           dict(kind="blob-descriptor", case=c, failing="correspondence Blob::read model vs implementation"), no_input=True)
+    # ---- extraction into a target of fixed capacity (its write returns Ok(0) once full): the call must return -
+    #      an error when the blob does not fit, the exact bytes when it does (direct oracle on the implementation only)
+    scases, snames = [], []
+    for (off, ln) in descs:
+        for cap in sorted({0, 1, max(0, ln - 1), ln, ln + 1, ln // 2, 4096, 4097}):
+            scases.append("BLOBRDS - @b %d %d %d" % (off, ln, cap)); snames.append((off, ln, cap))
+    plain = {(o2, l2): a[i] for i, (o2, l2, what) in enumerate(names) if what == "plain"}
+    sres = core.run_cases(impl, scases, prelude=prelude)
+    rep.count(len(scases))
+    for c, (off, ln, cap), r in zip(scases, snames, sres):
+        rep.distinct(("fixed-target", c))
+        bad = None
+        if r == "HANG":
+            bad = "blob extraction into a full target does not return (no result after 20 s)"
+        elif r == "P" or r.startswith("CRASH"):
+            bad = "blob extraction into a fixed-capacity target panicked"
+        elif r.startswith("ok"):
+            ref = plain.get((off, ln), "")
+            if cap < ln:
+                bad = "blob extraction reports success although the target holds only %d of %d bytes (%s)" % (cap, ln, r)
+            elif "n=%d filled=%d " % (ln, ln) not in r + " " or (ref.startswith("ok") and r.split("h=")[1] != ref.split("h=")[1]):
+                bad = "blob extraction into a target of capacity %d returned %s, into a Vec %s" % (cap, r, ref)
+        if bad:
+            n_dir += 1
+            rep.violation("blob-fixed-target", "%s (offset %d, length %d, capacity %d)" % (bad, off, ln, cap),
+                          dict(kind="blob-fixed-target", case=c, offset=off, length=ln, capacity=cap))
+            break
+    rep.cov["fixed_capacity_target_cases"] = len(scases)
     rep.cov.update(programs=len(progs), blob_length_residues_mod_1020=len(res1020), blob_length_residues_mod_4=len(res4),
                    crafted_descriptor_cases=len(cases), direct_failures=n_dir, correspondence_failures=n_corr,
                    traces_validated_against_impl=len(progs) + len(cases))
